@@ -21,8 +21,9 @@ def run(ctx):
                 "non-trivial = the tree has a container and ≥2 leaves (a: the tree / both trees of a pair have a container); "
                 "distinct by canonical input")
     tree_api.campaign(ctx)
+    handle = args_obj.start(ctx)        # stream (d) runs in the background while stream (b)/(c) builds
     args_api.campaign(ctx)
-    args_obj.campaign(ctx)
+    args_obj.finish(ctx, handle)
     ctx.extra["corpus_witnesses"] = [s["name"] for s in args_api.corpus()]   # F70, F71, F72 (fixed): must pass
 
 
